@@ -23,6 +23,9 @@ type RunConfig struct {
 	StepCap int  // scheduler steps before the run is aborted (default 200000)
 	KeepLog bool // keep the event log (replay / samples); the hash is always kept
 	NoRace  bool // disable the happens-before race detector
+	// LatePreempt: the pre-emption plan is drawn when the world calls
+	// ArmPreempt() (after a long single-task prologue) instead of at the start.
+	LatePreempt bool
 	// MaxPreempt bounds how many forced pre-emptions at memory-access points a
 	// run may draw (default 8).
 	MaxPreempt int
@@ -106,6 +109,7 @@ type Task struct {
 	lastRun   int
 	started   bool
 	parent    int
+	opSeq     uint64
 }
 
 type timer struct {
@@ -175,17 +179,8 @@ func Run(cfg RunConfig, ch Chooser, mainFn func()) *Result {
 	// per-run scheduling policy (swarm): drawn first, so it is part of the replay
 	s.pSwitch = []int{1, 3, 8, 16}[ch.Choose("cfg.pswitch", 4)]
 	s.timeJump = []int{0, 0, 1, 4}[ch.Choose("cfg.timejump", 4)]
-	np := []int{0, 1, 2, 4, 8}[ch.Choose("cfg.preempt.n", 5)]
-	if np > cfg.MaxPreempt {
-		np = cfg.MaxPreempt
-	}
-	if np > 0 {
-		gap := []int{4, 16, 64, 256, 1024}[ch.Choose("cfg.preempt.gap", 5)]
-		at := 0
-		for i := 0; i < np; i++ {
-			at += 1 + ch.Choose("preempt.at", gap)
-			s.preemptAt = append(s.preemptAt, at)
-		}
+	if !cfg.LatePreempt {
+		s.drawPreemptPlan()
 	}
 	cur = s
 	t0 := s.newTask("main", "main", -1)
@@ -216,6 +211,31 @@ func Run(cfg RunConfig, ch Chooser, mainFn func()) *Result {
 	s.res.NonTrivial = s.res.Switches > 0 || s.res.Preempts > 0 || len(s.res.Faults) > 0
 	cur = nil
 	return s.res
+}
+
+func (s *Sim) drawPreemptPlan() {
+	ch := s.ch
+	np := []int{0, 1, 2, 4, 8}[ch.Choose("cfg.preempt.n", 5)]
+	if np > s.cfg.MaxPreempt {
+		np = s.cfg.MaxPreempt
+	}
+	s.preemptAt = nil
+	if np > 0 {
+		gap := []int{4, 16, 64, 256, 1024}[ch.Choose("cfg.preempt.gap", 5)]
+		at := s.accessCnt
+		for i := 0; i < np; i++ {
+			at += 1 + ch.Choose("preempt.at", gap)
+			s.preemptAt = append(s.preemptAt, at)
+		}
+	}
+}
+
+// ArmPreempt draws the pre-emption plan now, counted from the current access
+// (see RunConfig.LatePreempt).
+func ArmPreempt() {
+	if cur != nil && !cur.killing {
+		cur.drawPreemptPlan()
+	}
 }
 
 func (s *Sim) newTask(name, site string, parent int) *Task {
@@ -602,6 +622,16 @@ func Seq() uint64 {
 		return 0
 	}
 	return cur.seq
+}
+
+// LastOpSeq is the event sequence number at which the running task's most
+// recent channel operation completed (for a rendezvous: the instant both sides
+// completed, however much later this task was resumed).
+func LastOpSeq() uint64 {
+	if cur == nil || cur.cur == nil {
+		return 0
+	}
+	return cur.cur.opSeq
 }
 
 // Stamp increments and returns the global event sequence number without
